@@ -1,11 +1,29 @@
 use sci_common::rt::Run;
 use std::sync::Arc;
 
+pub mod c02;
+pub mod c03;
 pub mod c07;
+pub mod c12;
+pub mod c13;
+pub mod c14;
+pub mod c15;
+pub mod c17;
+pub mod c18;
+pub mod c19;
 
 pub fn dispatch(id: &str, run: &Arc<Run>) -> bool {
     match id {
+        "C02" => c02::run(run),
+        "C03" => c03::run(run),
         "C07" => c07::run(run),
+        "C12" => c12::run(run),
+        "C13" => c13::run(run),
+        "C14" => c14::run(run),
+        "C15" => c15::run(run),
+        "C17" => c17::run(run),
+        "C18" => c18::run(run),
+        "C19" => c19::run(run),
         _ => return false,
     }
     true
